@@ -615,6 +615,15 @@ func (eval Evaluator) ScaleDown(ctIn *rlwe.Ciphertext) (*rlwe.Ciphertext, *rlwe.
 	// (Current Message Ratio) / (Desired Message Ratio)
 	scaleUp := currentMessageRatio.Div(targetMessageRatio)
 
+	// With a level to spare the scale is matched to 2^{round(log2(Q[0]))}/MessageRatio (the power of two the
+	// level-zero case requires) rather than to Q[0]/MessageRatio: ModUp multiplies by round(ScalingFactor/MessageRatio/Scale),
+	// which is exact only for the former.
+	qDiff := rlwe.NewScale(1)
+	if ctIn.Level() != 0 {
+		qDiff = rlwe.NewScale(eval.Mod1Parameters.QDiff)
+		scaleUp = scaleUp.Div(qDiff)
+	}
+
 	if scaleUp.Cmp(rlwe.NewScale(0.5)) == -1 {
 		return nil, nil, fmt.Errorf("initial Q/Scale = %f < 0.5*Q[0]/MessageRatio = %f", currentMessageRatio.Float64(), targetMessageRatio.Float64())
 	}
@@ -630,6 +639,7 @@ func (eval Evaluator) ScaleDown(ctIn *rlwe.Ciphertext) (*rlwe.Ciphertext, *rlwe.
 	// errScale = CtIn.Scale/(Q[0]/MessageRatio)
 	targetScale := new(big.Float).SetPrec(256).SetInt(r.ModulusAtLevel[0])
 	targetScale.Quo(targetScale, new(big.Float).SetFloat64(eval.Mod1Parameters.MessageRatio()))
+	targetScale.Quo(targetScale, &qDiff.Value)
 
 	if ctIn.Level() != 0 {
 		if err := eval.RescaleTo(ctIn, rlwe.NewScale(targetScale), ctIn); err != nil {
